@@ -3309,3 +3309,123 @@ Proof.
   rewrite (advance_conn _ _ _ _ _ _ Ec). pose proof (then_pump_cf _ _ _ _ _ Eb) as (_ & Hcb & _). rewrite Hcb.
   cbn [on_event] in Ea. destruct (if s_conn st then _ else _) as [s1 o1]. injection Ea as <- _. reflexivity.
 Qed.
+
+(* ---------------------------------------------------------------------------------------- *)
+(* the last-unsolicited record holds only fragments that were ACCEPTED *)
+
+(* ignored_fragment_not_recorded: a receive step that does not accept an unsolicited fragment -
+   the fragment is solicited, has an unparsable header, is gated by the start-up sequence, comes
+   from another address, has malformed objects - leaves the record exactly as it was *)
+Theorem ignored_fragment_not_recorded : forall cfg evs k src frag v items,
+  nth_error evs k = Some (ERx src frag v items) ->
+  unsol_new cfg (state_at cfg evs k) src frag v = None ->
+  s_last_unsol (state_at cfg evs (S k)) = s_last_unsol (state_at cfg evs k).
+Proof.
+  intros cfg evs k src frag v items Hev Hnone.
+  rewrite (state_at_S _ _ _ _ Hev), mstep_lu.
+  - rewrite Hnone. destruct (s_stopped _); reflexivity.
+  - unfold ends_session. apply Bool.andb_false_r.
+Qed.
+
+Lemma unsol_new_spec cfg st src frag v x :
+  unsol_new cfg st src frag v = Some x ->
+  exists h objs, parse_response frag = PResponse h objs /\ h_unsol h = true /\ s_conn st = true /\
+                 unsol_accepts cfg st src h objs v = true /\ x = (hdr_bytes h, objs).
+Proof.
+  unfold unsol_new. destruct (s_conn st); [|discriminate]. destruct (parse_response frag) as [|h objs]; [discriminate|].
+  destruct (h_unsol h) eqn:Hu; cbn [andb]; [|discriminate]. destruct (unsol_accepts cfg st src h objs v) eqn:Ha; [|discriminate].
+  intros H. injection H as <-. exists h, objs. repeat split; assumption.
+Qed.
+
+Lemma stop_run_lu cfg st why st' o :
+  stop_run cfg st why = (st', o) -> s_last_unsol st' = None \/ s_last_unsol st' = s_last_unsol st.
+Proof.
+  unfold stop_run. destruct (fail_running _ _ _) as [st1 o1] eqn:E1. apply fail_running_lu in E1.
+  destruct (s_assoc st1); [unfold reset_assoc|]; intros H; injection H as <- _; [left; reflexivity|right; exact E1].
+Qed.
+
+(* whatever a step does, the record afterwards is empty, unchanged, or the unsolicited fragment
+   this very step accepted *)
+Lemma mstep_lu_cases cfg st ev x :
+  s_last_unsol (fst (mstep cfg st ev)) = Some x ->
+  s_last_unsol st = Some x \/
+  exists src frag v items, ev = ERx src frag v items /\ s_stopped st = false /\ unsol_new cfg st src frag v = Some x.
+Proof.
+  destruct (ends_session st ev) eqn:He.
+  - (* the session ends: cleared or unchanged *)
+    unfold ends_session in He. apply Bool.andb_true_iff in He. destruct He as [Hc Hev].
+    unfold mstep. destruct (s_stopped st) eqn:Hs; [cbn [fst]; auto|].
+    destruct (on_event cfg st ev) as [sa oa] eqn:Ea. destruct (then_pump cfg (sa, oa)) as [sb ob] eqn:Eb.
+    destruct (advance _ cfg sb _) as [sc oc] eqn:Ec. cbn [fst].
+    rewrite (advance_lu _ _ _ _ _ _ Ec), (then_pump_lu _ _ _ _ _ Eb). intros Hx. left.
+    destruct ev; try discriminate; cbn [on_event] in Ea; rewrite Hc in Ea.
+    + destruct (stop_run_lu _ _ _ _ _ Ea) as [Hn|Hn]; [congruence|]. rewrite Hn in Hx. exact Hx.
+    + destruct (stop_run_lu _ _ _ _ _ Ea) as [Hn|Hn]; [congruence|]. rewrite Hn in Hx. exact Hx.
+    + destruct (stop_run cfg st StShutdown) as [s1 o1] eqn:E1. injection Ea as <- _. cbn [s_last_unsol set_chan] in Hx.
+      destruct (stop_run_lu _ _ _ _ _ E1) as [Hn|Hn]; [congruence|]. rewrite Hn in Hx. exact Hx.
+  - rewrite mstep_lu by exact He. destruct ev as [src frag v items|ms|t u| | | | | |]; auto.
+    destruct (s_stopped st) eqn:Hs; [auto|].
+    destruct (unsol_new cfg st src frag v) as [y|] eqn:Hn; [|auto].
+    intros H. injection H as <-. right. exists src, frag, v, items. auto.
+Qed.
+
+(* along a run: whatever the record holds was accepted, as an unsolicited fragment with exactly
+   that header and those objects, at an earlier step *)
+Theorem recorded_was_accepted : forall cfg evs k x,
+  (k <= length evs)%nat -> s_last_unsol (state_at cfg evs k) = Some x ->
+  exists j src frag v items h objs,
+    (j < k)%nat /\ nth_error evs j = Some (ERx src frag v items) /\
+    parse_response frag = PResponse h objs /\ h_unsol h = true /\
+    unsol_accepts cfg (state_at cfg evs j) src h objs v = true /\ x = (hdr_bytes h, objs).
+Proof.
+  intros cfg evs k x. induction k as [|k IH]; intros Hk Hx.
+  - exfalso. unfold state_at, final in Hx. cbn [firstn final_from] in Hx.
+    unfold minit in Hx. destruct (run_pump cfg _) as [st1 o1] eqn:E1. destruct (advance 2 cfg st1 1) as [st2 o2] eqn:E2.
+    cbn [fst] in Hx. rewrite (advance_lu _ _ _ _ _ _ E2) in Hx. unfold run_pump in E1. rewrite (pump_lu _ _ _ _ _ E1) in Hx.
+    discriminate.
+  - destruct (nth_error evs k) as [ev|] eqn:Hev; [|apply nth_error_None in Hev; lia].
+    rewrite (state_at_S _ _ _ _ Hev) in Hx.
+    destruct (mstep_lu_cases _ _ _ _ Hx) as [Hold|(src & frag & v & items & -> & Hs & Hn)].
+    + destruct (IH ltac:(lia) Hold) as (j & src & frag & v & items & h & objs & Hj & Hrest).
+      exists j, src, frag, v, items, h, objs. split; [lia|exact Hrest].
+    + destruct (unsol_new_spec _ _ _ _ _ _ Hn) as (h & objs & Hp & Hu & _ & Ha & ->).
+      exists k, src, frag, v, items, h, objs. repeat split; auto.
+Qed.
+
+(* a fragment is reported as a repeat only if the SAME fragment (header and objects) was accepted
+   at an earlier step - never because a fragment that was ignored looked the same *)
+Theorem duplicate_only_of_accepted : forall cfg evs k o q,
+  nth_error (run cfg evs) (S k) = Some o -> In (OInfoUnsol true q) (map snd o) ->
+  exists src frag v items h objs,
+    nth_error evs k = Some (ERx src frag v items) /\ parse_response frag = PResponse h objs /\ h_unsol h = true /\
+    exists j src' frag' v' items',
+      (j < k)%nat /\ nth_error evs j = Some (ERx src' frag' v' items') /\
+      parse_response frag' = PResponse h objs /\
+      unsol_accepts cfg (state_at cfg evs j) src' h objs v' = true.
+Proof.
+  intros cfg evs k o q Hn Hin.
+  destruct (run_nth _ _ _ _ Hn) as (ev & Hev & ->). fold (state_at cfg evs k) in *. set (st := state_at cfg evs k) in *.
+  destruct (s_stopped st) eqn:Hs.
+  { apply stopped_no_obs in Hin; [|exact Hs]. destruct Hin; discriminate. }
+  apply in_act in Hin; [|reflexivity]. rewrite act_mstep in Hin by assumption.
+  destruct ev as [src frag v items|ms|tok t| | | | | |]; try contradiction.
+  unfold rx_act in Hin. destruct (s_conn st); cbn [negb] in Hin; [|contradiction].
+  destruct (parse_response frag) as [|h objs] eqn:Hp; [contradiction|].
+  destruct (h_unsol h) eqn:Hu.
+  2:{ exfalso. destruct (accepted_answer cfg st src h); [|contradiction].
+      destruct (s_run st); try contradiction.
+      - unfold sol_confirm, nr_act in Hin. brk_in Hin.
+      - unfold rd_act, sol_confirm in Hin. brk_in Hin. }
+  exists src, frag, v, items, h, objs. repeat split; try assumption.
+  unfold unsol_act, unsol_confirm in Hin. destruct (unsol_accepts cfg st src h objs v); [|contradiction].
+  destruct (unsol_dup st h objs) eqn:Hd; [|brk_in Hin].
+  apply unsol_dup_spec in Hd.
+  destruct (recorded_was_accepted cfg evs k _ (nth_error_le _ _ _ Hev) Hd)
+    as (j & src' & frag' & v' & items' & h' & objs' & Hj & Hevj & Hp' & Hu' & Ha' & Heq).
+  assert (Hh : hdr_bytes h' = hdr_bytes h /\ objs' = objs) by (split; congruence).
+  destruct Hh as [Hh Ho]. subst objs'.
+  assert (h' = h).
+  { destruct h as [c u i1 i2], h' as [c' u' i1' i2']. unfold hdr_bytes in Hh. cbn [h_ctrl h_unsol h_iin1 h_iin2] in *.
+    subst u u'. congruence. }
+  subst h'. exists j, src', frag', v', items'. repeat split; assumption.
+Qed.
